@@ -462,8 +462,12 @@ func (env *SpecEnv) index(n *EIndex) SVal {
 		if _, ok := mapKeySort(u); !ok {
 			unsupp("spec index on map with key %s", u.Key())
 		}
-		has := And(Ne(base.V.T, IntLit(0)), Select(env.e.mapDom(st, u, base.V.T), idx.V.T))
-		v := env.e.mapGet(st, u, base.V.T, idx.V.T)
+		kt := idx.V.T
+		if kindOf(u.Key()) == kStruct {
+			kt = mapKey(u, idx.V)
+		}
+		has := And(Ne(base.V.T, IntLit(0)), Select(env.e.mapDom(st, u, base.V.T), kt))
+		v := env.e.mapGet(st, u, base.V.T, kt)
 		return SVal{V: iteVal(has, v, zeroVal(u.Elem())), T: u.Elem()}
 	case *types.Basic:
 		return gInt(App("seq_at", SInt, base.V.T, idx.V.T))
@@ -583,7 +587,11 @@ func (env *SpecEnv) call(n *ECall) SVal {
 			return gBool(Select(m.V.T, k.V.T))
 		}
 		mt := m.T.Underlying().(*types.Map)
-		return gBool(And(Ne(m.V.T, IntLit(0)), Select(env.e.mapDom(env.st(), mt, m.V.T), k.V.T)))
+		kt := k.V.T
+		if kindOf(mt.Key()) == kStruct {
+			kt = mapKey(mt, k.V)
+		}
+		return gBool(And(Ne(m.V.T, IntLit(0)), Select(env.e.mapDom(env.st(), mt, m.V.T), kt)))
 	case "update":
 		m := env.eval(n.Args[0])
 		k := env.eval(n.Args[1])
@@ -707,7 +715,7 @@ func (env *SpecEnv) call(n *ECall) SVal {
 		s := n.Args[1].(*EStr)
 		T := env.typeByName(s.V)
 		return SVal{V: env.e.unbox(env.st(), v.V.Fs[1].T, T), T: T}
-	case "smhas", "smbytes", "smtag":
+	case "smhas", "smbytes", "smtag", "smhasi", "smvali":
 		// smhas(obj, "field", key) / smbytes(obj, "field", key): the sync.Map in field `field` of object obj
 		// (string keys; smbytes reads a []byte payload)
 		o := env.eval(n.Args[0])
@@ -734,9 +742,18 @@ func (env *SpecEnv) call(n *ECall) SVal {
 		}
 		id := smID(o.V.T, typeKey(pt.Elem())+pathString(pt.Elem(), []int{idx}))
 		kv := env.eval(n.Args[2])
-		k := App("box_seq", SInt, kv.V.T)
+		var k *Term
+		if n.Fn == "smhasi" || n.Fn == "smvali" {
+			k = App("box_int", SInt, kv.V.T) // integer keys (and, for smvali, an integer payload)
+		} else {
+			k = App("box_seq", SInt, kv.V.T)
+		}
 		domS, valS := smSorts()
 		switch n.Fn {
+		case "smhasi":
+			return gBool(Select(Select(env.st().heapGet("SM:dom", domS), id), k))
+		case "smvali":
+			return gInt(App("unbox_int", SInt, Select(Select(env.st().heapGet("SM:val", valS), id), k)))
 		case "smhas":
 			return gBool(Select(Select(env.st().heapGet("SM:dom", domS), id), k))
 		case "smtag":
@@ -784,6 +801,22 @@ func (env *SpecEnv) call(n *ECall) SVal {
 		}
 		kv := env.eval(n.Args[0])
 		return gBool(Select(env.st().cells[mi.cell].T, kv.V.T))
+	case "mk":
+		// mk("pkg.T", f1, f2, ...): a value of struct type T with the given fields in declaration order (map keys)
+		sx, ok := n.Args[0].(*EStr)
+		if !ok {
+			unsupp("mk(\"pkg.T\", fields...)")
+		}
+		T := env.typeByName(sx.V)
+		stt, isSt := T.Underlying().(*types.Struct)
+		if !isSt || stt.NumFields() != len(n.Args)-1 {
+			unsupp("mk: %s is not a struct with %d fields", sx.V, len(n.Args)-1)
+		}
+		out := Val{}
+		for _, a := range n.Args[1:] {
+			out.Fs = append(out.Fs, env.eval(a).V)
+		}
+		return SVal{V: out, T: T}
 	case "samearray":
 		// samearray(a, b): the two slices share their backing array
 		a := env.eval(n.Args[0])
